@@ -1033,6 +1033,22 @@ func c15Run(ctx *core.Ctx, nent int, dotu bool, thorough bool) core.Result {
 			_ = f.Close()
 		}
 		c.Unmount()
+		// … and through a connection whose msize is too small for the largest entry: the listing cannot be complete,
+		// so Readdir(0) must say so (an error), never hand out a part of the directory as if it were all of it
+		if small := uint32(largest + go9p.IOHDRSZ - 1); nent > 1 && small >= 64 && small < msize {
+			if c2, err := e.client(small, dotu); err == nil {
+				if f2, err := c2.FOpen("d", go9p.OREAD); err == nil {
+					ds, err := f2.Readdir(0)
+					res.Evals++
+					if err == nil && len(ds) != nent {
+						fail("readdir-partial-without-error", fmt.Sprintf("Readdir(0) over a connection with msize %d (the largest entry needs %d) returned %d of %d entries and no error", small, largest+go9p.IOHDRSZ, len(ds), nent), nil)
+					}
+					res.Sig(fmt.Sprintf("readdir0-small|%d|%v", nent, dotu))
+					_ = f2.Close()
+				}
+				c2.Unmount()
+			}
+		}
 	}
 	res.Sample(map[string]interface{}{"entries": nent, "dotu": dotu, "largest_entry": largest, "name_lengths": fmt.Sprintf("1..%d", maxName)})
 	return res
